@@ -72,7 +72,7 @@ class C19(PropertyCheck):
             "256x256 texture per format for the oracle), RGBA8 byte sweeps; all 25 power-of-two sizes 8..128 x 9 formats with random payloads; ETC1 "
             "blocks: individual/differential x 64 table pairs x flip x constant selector fills + per-position selector values + random selectors, "
             "every in-range (base, delta) pair, all 4-bit colour pairs, every alpha nibble, boundary alpha words (zero, ones, one nibble set/cleared per position) x varied and boundary colour words; all 65536 RGB5A3 values; CI8 palette images of sizes 1..64 "
-            "(sampled in the quick tier, all 4096 in the thorough tier; every one model-compared); decode_indexed directly; ColorFormat::decode / "
+            "(sampled in the quick tier, all 4096 in the thorough tier; every one model-compared); small palettes (1, 2, 16, 255 colours) with visible indices in range and cropped-away padding bytes 0xFF / random / = palette size, and the converse (one visible index outside: error); decode_indexed directly; ColorFormat::decode / "
             "decode_indexed for every ColorFormat with the error variant; ETC1/ETC1A4 also through the CTPK path; every modifier-table entry with "
             "both signs on unclamped bases; edge cases (odd sizes, wrong payload length, first index outside the palette, formats outside the "
             "list) for the model correspondence only; textures above 4096 (quick) / 8192-16384 (thorough) pixels are oracle-only.  Both build profiles.  Non-trivial = the case is inside the property's domain and the implementation returned "
@@ -267,6 +267,27 @@ class C19(PropertyCheck):
             pal = b"".join(struct.pack(">H", rng.getrandbits(16)) for _ in range(ncol))
             kind = "pal" if w * h <= PAL_MODEL_MAX_PIXELS else "bigpal"
             cases.append(Case("c19 %s %d %d %s %s" % (kind, w, h, hx(img), hx(pal)), "palette-images"))
+        # only the VISIBLE pixels' indices have to lie inside the palette (C19_palette): small palettes, visible indices in range,
+        # the cropped-away padding bytes 0xFF / random / = palette size; and the converse: one visible index outside -> error (model-compared)
+        psizes = [(1, 1), (3, 2), (7, 4), (8, 3), (9, 5), (12, 4), (13, 7), (8, 4), (16, 8), (17, 9), (31, 30), (33, 1), (63, 63), (64, 61)]
+        if thorough:
+            psizes += [(rng.randrange(1, 65), rng.randrange(1, 65)) for _ in range(300)]
+        for (w, h) in psizes:
+            n = texref.ci8_data_size(w, h)
+            visible = set(texref.ci8_index(w, x, y) for y in range(h) for x in range(w))
+            for ncol in (1, 2, 16, 255):
+                for fill in ("ff", "random", "ncol"):
+                    img = bytearray(rng.randrange(ncol) for _ in range(n))
+                    for i in range(n):
+                        if i not in visible:
+                            img[i] = 0xFF if fill == "ff" else (rng.randrange(ncol, 256) if fill == "random" else ncol)
+                    pal = b"".join(struct.pack(">H", rng.getrandbits(16)) for _ in range(ncol))
+                    cases.append(Case("c19 pal %d %d %s %s" % (w, h, hx(img), hx(pal)), "palette-padding"))
+                # converse: a single visible pixel points outside the palette, padding all valid
+                img = bytearray(rng.randrange(ncol) for _ in range(n))
+                img[rng.choice(sorted(visible))] = rng.choice([ncol, 255])
+                pal = b"".join(struct.pack(">H", rng.getrandbits(16)) for _ in range(ncol))
+                cases.append(Case("c19 pal %d %d %s %s" % (w, h, hx(img), hx(pal)), "palette-visible-index-outside"))
         for _ in range(20 if not thorough else 200):
             n = rng.randrange(0, 200)
             ncol = rng.randrange(1, 257)
